@@ -2,6 +2,7 @@
 import copy, json, os, pathlib, random, re, time
 import common
 import c06_gen as G
+import c06_hist as H
 
 PID = 'C06'
 GENS = ['vmfKeys']
@@ -13,7 +14,11 @@ RULE = ("maps are built through the public API by harness/c06_gen.py (entities w
         "displacements of power 1-4 with random vertex data and multiblend, nested visgroups, groups, cameras, cordons, "
         "Strata viewports/point data, repeated and hash-colliding ids), plus every .vmf under /repo/tests; each map is "
         "checked under options (minimal, disp_multiblend) x preserve_ids; the parser is additionally fed key-dropped variants of exported trees "
-        "(one node of a uniformly chosen kind removed, or every node removed with probability 3-30%). A case = (map seed, profile, options[, variant]); "
+        "(one node of a uniformly chosen kind removed, or every node removed with probability 3-30%). HISTORIES (harness/c06_hist.py): one live map is "
+        "exported again and again with in-place edits through the public API in between (Solid/Side.translate, localise, Side.scale/offset setters, "
+        "side.uaxis.<attr> = ..., plane/camera/cordon/displacement Vec +=, key/fixup/output edits, vertex edits, visgroup and hidden toggles, map settings, str()); "
+        "after EVERY export the oracle compares the re-parsed text with a fresh dump of the live object, and the correspondence compares the text/tree with "
+        "exportText/exportTree of that dump and the dump after the export with afterExport. A case = (map seed, profile, options[, variant | operation list]); "
         "non-trivial = the map has at least one entity or brush besides the bare worldspawn; distinct by the dump of the map.")
 TRUSTED = ["models: C06.exportTree / parseTree / project (Model/C06.lean, KV-tree level) and C06.exportText (Model/C06Text.lean: the "
            "f-string writers of every class as a layout tree - indentation, unquoted block headers, which fields pass through "
@@ -314,6 +319,7 @@ def build_case(case):
         with open(common.REPO / case['file'], encoding='cp1251') as fh:
             return VMF.parse(Keyvalues.parse(fh), preserve_ids=True)
     profs = dict(profiles(None))
+    profs['hist'] = H.hist_profile()
     if 'profile_kw' in case:
         prof = G.Profile(**case['profile_kw'])
     else:
@@ -417,6 +423,109 @@ def drop_one(rng, tree):
     return t
 
 
+def hist_opts(i):
+    return OPTS[i % 4]
+
+
+def run_history(ctx, case, ops):
+    """Build the map of `case`, check it, then apply the operations one by one and check the SAME live
+    object after every one. Returns (step, [(key, what)]) of the first failing check, or None."""
+    vmf = build_case(case)
+    for step in range(len(ops) + 1):
+        if step > 0:
+            H.apply_op(vmf, ops[step - 1])
+        minimal, multiblend = hist_opts(step)
+        fails, _ = check_map(ctx, vmf, minimal, multiblend, step % 3 == 1, case)
+        if fails:
+            return step, fails
+    return None
+
+
+def search_histories(ctx, n, n_ops):
+    for i in range(n):
+        seed = f'{ctx.pid}:{ctx.seed}:hist:{i}'
+        case = {'gen': seed, 'profile': 'hist'}
+        ops = H.gen_ops(random.Random(seed + ':ops'), n_ops)
+        ctx.case(dict(case, ops=len(ops)), nontrivial=True, sample_every=53)
+        ctx.count('histories')
+        ctx.count('history operations', len(ops))
+        for op in ops:
+            ctx.count('history op ' + op[0])
+        try:
+            res = run_history(ctx, case, ops)
+        except Exception as e:
+            ctx.witness('history-raises', f'history raised {type(e).__name__}: {str(e)[:200]} [{json.dumps(case)}]', dict(case, ops=ops))
+            continue
+        if res is None:
+            continue
+        step, fails = res
+        key0 = fails[0][0]
+
+        def still(sub):
+            try:
+                r = run_history(ctx, case, sub)
+            except Exception:
+                return False
+            return r is not None and any(k == key0 for k, _ in r[1])
+        small = common.ddmin(ops[:step], still, budget=60) if step > 1 else ops[:step]
+        if not still(small):
+            small = ops[:step]
+        for key, what in fails[:2]:
+            c = dict(case, ops=small)
+            ctx.witness('history:' + key, f'after the in-place edits {json.dumps(small)} on a map that had been exported before: {what}', c)
+
+
+def correspond_histories(ctx, drv, n, n_ops):
+    """Model vs implementation along histories: after every edit the text and tree exported by the
+    live object must be the model's function of the live object's current value."""
+    from srctools.keyvalues import Keyvalues
+    reqs, meta = [], []
+    for i in range(n):
+        seed = f'{ctx.pid}:{ctx.seed}:chist:{i}'
+        case = {'gen': seed, 'profile': 'hist'}
+        ops = H.gen_ops(random.Random(seed + ':ops'), n_ops)
+        try:
+            vmf = build_case(case)
+            for step in range(len(ops) + 1):
+                if step > 0:
+                    H.apply_op(vmf, ops[step - 1])
+                minimal, multiblend = hist_opts(step)
+                d = G.dump_map(vmf)
+                inc = step % 3 == 1
+                t = vmf.export(inc_version=inc, minimal=minimal, disp_multiblend=multiblend)
+                tree = G.kv_tree(Keyvalues.parse(t))
+                opts = {'minimal': minimal, 'multiblend': multiblend, 'inc': inc}
+                reqs += [{'op': 'text', 'opts': opts, 'map': d}, {'op': 'export', 'opts': opts, 'map': d},
+                         {'op': 'after', 'opts': opts, 'map': d}]
+                meta.append((dict(case, ops=ops[:step], minimal=minimal, disp_multiblend=multiblend), t, tree, G.dump_map(vmf)))
+        except Exception:
+            ctx.count('correspond: history stopped by an exception (left to the search)')
+            continue
+    if not reqs:
+        return
+    it = iter(drv.batch(reqs))
+    for c, t, tree, d_after in meta:
+        r_txt, r_exp, r_aft = next(it), next(it), next(it)
+        if len(c['ops']) % 3 == 1:
+            ctx.count('correspond: history exports that change the live value (map_ver)')
+        if 'map' not in r_aft or canon_model(r_aft['map']) != canon_model(d_after):
+            df = G.diff(canon_model(d_after), canon_model(r_aft['map'])) if 'map' in r_aft else str(r_aft)
+            ctx.disagree(c, 'live object after export', df or 'maps differ',
+                         'history: value of the live map after export vs afterExport (impl vs model)')
+        ctx.case(c, nontrivial=True, sample_every=97)
+        ctx.count('correspond: history exports')
+        ctx.traces_vs_impl += 1
+        mt = ''.join(map(chr, r_txt.get('text', []))) if 'text' in r_txt else None
+        if mt != t:
+            i = next((i for i, (a, b) in enumerate(zip(mt or '', t)) if a != b), 0)
+            ctx.disagree(c, t[max(0, i - 40):i + 40], (mt or str(r_txt))[max(0, i - 40):i + 40],
+                         'history: text exported by the live map vs exportText of its current value (impl vs model)')
+        elif 'tree' in r_exp:
+            d = _tree_diff(tree, r_exp['tree'])
+            if d:
+                ctx.disagree(c, 'impl tree', d, 'history: exported tree vs exportTree of the current value (impl vs model)')
+
+
 def correspond_dropped(ctx, drv, base):
     """Feed the PARSER documents where keys are absent and compare with the model (defaults as
     coded). `base` = list of (case, exported tree)."""
@@ -505,6 +614,7 @@ def correspond(ctx, drivers):
     replies = drv.batch(reqs)
     it = iter(replies)
     correspond_dropped(ctx, drv, [(c, tree) for c, tree, _, _ in meta[:ctx.budget(60, 200)] if not c['minimal']])
+    correspond_histories(ctx, drv, ctx.budget(16, 80), ctx.budget(6, 10))
     for c, tree, res, t1 in meta:
         r_txt, r_exp, r_pt, r_pf, r_proj, r_rt = next(it), next(it), next(it), next(it), next(it), next(it)
         ctx.traces_vs_impl += 1
@@ -553,6 +663,7 @@ def correspond(ctx, drivers):
 
 
 def search(ctx):
+    search_histories(ctx, ctx.budget(40, 300), ctx.budget(6, 10))
     t0 = time.time()
     n = ctx.budget(300, 2500)
     seen = {}
@@ -572,7 +683,7 @@ def search(ctx):
         del vmf
         for k in run_oracle(ctx, case, build):
             seen[k] = seen.get(k, 0) + 1
-        if time.time() - t0 > ctx.budget(80, 600):
+        if time.time() - t0 > ctx.budget(72, 600):
             ctx.notes.append('search stopped by time budget')
             break
     for k, v in sorted(seen.items()):
@@ -584,6 +695,14 @@ def replay(ctx, payload):
     if 'gen' not in inp and 'file' not in inp:
         print('replay file names a broken obligation/correspondence, no input to replay:',
               payload.get('broken_obligations'), payload.get('disagreements', [])[:1])
+        return False
+    if 'ops' in inp:
+        res = run_history(ctx, inp, inp['ops'])
+        if res is None:
+            return True
+        print('history fails at step', res[0], 'of', json.dumps(inp['ops']))
+        for key, what in res[1]:
+            print(key, ':', what)
         return False
     vmf = build_case(inp)
     fails, t1 = check_map(ctx, vmf, inp.get('minimal', False), inp.get('disp_multiblend', True), inp.get('inc_version', False), inp)
